@@ -33,6 +33,7 @@ func run(e *harness.Env) {
 		"(quick: followers only at top level) x policy; tree = every tree of depth<=2 with <=2 members per container over 13 leaves x follower {none,int} x policy, thorough adds every tree of depth 3 over 6 leaves x policy; " +
 		"deep = depth-4 skeleton with 3 leaf slots over the full alphabet, all choice vectors with <=2 (quick) / <=3 (thorough) deviations from the plain case; " +
 		"prog = every operator program of length<=2 over the 70 operators of Annex A without BI/ID/EI x 3 operand variants x policy, thorough adds every program of length 3 x 1 rotating variant x 3 whitespace/comment policies x {lit,hexodd}; " +
+		"hex = hexadecimal-string spellings enumerated directly (coverage key hex_space: 0..5 digits x white space at one gap / two gaps / every gap incl. inside a pair and before '>', all six white bytes and all pairs of two) x contexts (quick 5, thorough 13) x whitespace policy, both parsers; " +
 		"big = 6 long structures (1500-member array over all leaves, 400-key dict, 9000-byte string + 119-byte name, 3000 one-digit ints ending in references, nesting depth 40) x policy; " +
 		fmt.Sprintf("quirk = %d mostly illegal operand spellings x 3 tails, differential only (both parsers accept => equal value). ", len(quirks)) +
 		"Policy = whitespace{sp,min,nl,mix of all six white bytes} x comments{off,sep,all=also inside n g R} x EOL{LF,CR,CRLF} x " +
@@ -47,7 +48,7 @@ func run(e *harness.Env) {
 	for _, sp := range []struct {
 		name string
 		f    func(*harness.Env)
-	}{{"leaf", leafSpace}, {"tree", treeSpace}, {"prog", progSpace}, {"deep", deepSpace}, {"big", bigSpace}, {"quirk", quirkSpace}} {
+	}{{"leaf", leafSpace}, {"tree", treeSpace}, {"prog", progSpace}, {"hex", hexSpace}, {"deep", deepSpace}, {"big", bigSpace}, {"quirk", quirkSpace}} {
 		if only == "" || only == sp.name {
 			sp.f(e)
 		}
